@@ -139,16 +139,21 @@ def run(cfg, fault_at=None, resume_from=None, file_path=None, keep_points=False,
     if cfg.get("n_final") is not None:
         kw["n_final_samples"] = cfg["n_final"]
     sink = []
+    live = []
     if file_path is not None:
         kw["checkpoint_every"] = cfg["cadence"]
         kw["checkpoint_file_path"] = file_path
     elif cfg.get("cadence") is not None:
         kw["checkpoint_every"] = cfg["cadence"]
-        kw["checkpoint_callback"] = lambda st: sink.append((st["iteration"], pickle.dumps(st, protocol=pickle.HIGHEST_PROTOCOL)))
+        def _cb(st):
+            sink.append((st["iteration"], pickle.dumps(st, protocol=pickle.HIGHEST_PROTOCOL)))
+            live.append(st)  # the very dictionary handed to the callback (a user may keep it and resume from it)
+
+        kw["checkpoint_callback"] = _cb
     if resume_from is not None:
         kw["resume_from"] = resume_from
     out = Run()
-    out.cfg, out.mon, out.aspire, out.sink = cfg, mon, a, sink
+    out.cfg, out.mon, out.aspire, out.sink, out.live = cfg, mon, a, sink, live
     out.exception = None
     out.result = None
     pk = dict(p["pk"]) if p["pk"] else None
